@@ -1,7 +1,1175 @@
-//! C05 — harness not built yet.
+//! C05 — compile-then-load round trip preserves every dictionary field, deterministically.
+//!
+//! One case = one generated lexicon CSV (+ connection matrix) compiled by `DictBuilder`, loaded again, every entry
+//! read back through `LexiconSet::get_word_info` / `get_word_param` / `Grammar`.  The Coq term compares, byte for
+//! byte, header / POS table / connection matrix / word params / word-info offsets / word infos produced by the
+//! implementation with the model's (`Model/Codec.v`, `Model/CodecCheck.v`), runs the reader model over the
+//! implementation's bytes, and evaluates the property predicate (read-back = declared data) on the implementation's
+//! read-back.  Determinism (compile twice, also in a second process) and alignment independence are checked here.
 use crate::common::*;
+use serde_json::{json, Value};
+use std::fmt::Write as _;
+use sudachi::analysis::stateless_tokenizer::DictionaryAccess;
+use sudachi::config::Config;
+use sudachi::dic::build::DictBuilder;
+use sudachi::dic::dictionary::JapaneseDictionary;
+use sudachi::dic::storage::{Storage, SudachiDicData};
+use sudachi::dic::word_id::WordId;
+use sudachi::dic::{DictionaryLoader, LoadedDictionary};
 
-pub fn run(_args: &Args) {
-    eprintln!("no harness for C05 yet");
-    std::process::exit(2);
+pub const KNOWN_USER_DICFORM: &str = "c05_user_dicform_ref";
+
+// ---------------------------------------------------------------- compact Coq literals
+pub fn cblob(b: &[u8]) -> String {
+    let mut s = String::with_capacity(b.len() * 3 + 24);
+    write!(s, "(B {}%N [", b.len()).unwrap();
+    let mut first = true;
+    for ch in b.chunks(7) {
+        let mut x: u64 = 0;
+        for (k, v) in ch.iter().enumerate() {
+            x |= (*v as u64) << (8 * k);
+        }
+        if !first {
+            s.push(';');
+        }
+        first = false;
+        write!(s, "{}", x).unwrap();
+    }
+    s.push_str("]%uint63)");
+    s
+}
+pub fn ctxt(t: &str) -> String {
+    let mut b = Vec::with_capacity(t.len() * 3);
+    let mut n = 0usize;
+    for c in t.chars() {
+        let c = c as u32;
+        b.push((c & 0xff) as u8);
+        b.push(((c >> 8) & 0xff) as u8);
+        b.push(((c >> 16) & 0xff) as u8);
+        n += 1;
+    }
+    let inner = cblob(&b);
+    // (B len [..]) -> (T n [..])
+    let p = inner.find('[').unwrap();
+    format!("(T {}%N {}", n, &inner[p..])
+}
+fn cnlist(xs: &[u32]) -> String {
+    clist(xs.iter().map(|x| cn(*x)))
+}
+
+// ---------------------------------------------------------------- generated lexicon
+#[derive(Clone, Debug, PartialEq)]
+pub enum Ref {
+    Sys(u32),
+    User(u32),
+    /// inline reference (surface, pos, reading) aimed at entry `target` of the own (true) or system (false) lexicon
+    Inline { surface: String, pos: usize, reading: String },
+}
+#[derive(Clone, Debug, PartialEq)]
+pub enum DicForm {
+    None,
+    Num(u32),
+    U(u32),
+}
+#[derive(Clone, Debug)]
+pub struct Row {
+    pub surface: String,
+    pub left: i16,
+    pub right: i16,
+    pub cost: i16,
+    pub headword: String,
+    pub pos: usize,
+    pub reading: String,
+    pub norm: String,
+    pub dic_form: DicForm,
+    pub mode: &'static str,
+    pub split_a: Vec<Ref>,
+    pub split_b: Vec<Ref>,
+    pub word_structure: Vec<Ref>,
+    pub synonyms: Option<Vec<u32>>, // None: column absent
+    pub star_lists: bool,           // empty lists written as "*" instead of ""
+}
+pub type Pos = [String; 6];
+#[derive(Clone, Debug)]
+pub struct Lex {
+    pub rows: Vec<Row>,
+    pub user: bool,
+}
+#[derive(Clone, Debug)]
+pub struct Matrix {
+    pub nl: u32,
+    pub nr: u32,
+    pub lines: Vec<(u32, u32, i16)>,
+}
+
+const HIRA: &[char] = &['あ', 'い', 'う', 'か', 'き', 'た', 'に', 'の', 'ん'];
+const KANJI: &[char] = &['京', '都', '東', '行', '日', '本', '語', '一'];
+const ASCII: &[char] = &['a', 'b', 'c', 'x', 'y', 'Z', '0', '7', '-', '.', ' '];
+const ASTRAL: &[char] = &['𠮟', '💞', '\u{10FFFF}', '\u{10000}', '𩸽'];
+const EDGE: &[char] = &['\u{7f}', '\u{80}', '\u{7ff}', '\u{800}', '\u{d7ff}', '\u{e000}', '\u{ffff}', 'é', 'Ω'];
+
+fn gen_char(rng: &mut Rng) -> char {
+    match rng.below(16) {
+        0..=5 => *rng.pick(HIRA),
+        6..=9 => *rng.pick(KANJI),
+        10..=12 => *rng.pick(ASCII),
+        13 => *rng.pick(EDGE),
+        _ => *rng.pick(ASTRAL),
+    }
+}
+fn units(s: &str) -> usize {
+    s.chars().map(|c| c.len_utf16()).sum()
+}
+/// a string of exactly `n` UTF-16 code units
+fn gen_units(rng: &mut Rng, n: usize) -> String {
+    let mut s = String::new();
+    let mut left = n;
+    while left > 0 {
+        let c = gen_char(rng);
+        if c.len_utf16() <= left {
+            s.push(c);
+            left -= c.len_utf16();
+        }
+    }
+    s
+}
+/// a string of exactly `n` UTF-8 bytes
+fn gen_bytes(rng: &mut Rng, n: usize) -> String {
+    let mut s = String::new();
+    while s.len() < n {
+        let c = gen_char(rng);
+        if s.len() + c.len_utf8() <= n {
+            s.push(c);
+        }
+    }
+    s
+}
+fn gen_short(rng: &mut Rng) -> String {
+    let n = 1 + rng.below(3) as usize;
+    (0..n).map(|_| gen_char(rng)).collect()
+}
+/// length classes around the 1-byte / 2-byte prefix boundary; big = allow the 32766/32767 classes
+fn gen_text(rng: &mut Rng, sink: &mut Sink, big: bool) -> String {
+    match rng.below(40) {
+        0 => {
+            sink.tag("str_units_126");
+            gen_units(rng, 126)
+        }
+        1 | 2 => {
+            sink.tag("str_units_127");
+            gen_units(rng, 127)
+        }
+        3 | 4 => {
+            sink.tag("str_units_128");
+            gen_units(rng, 128)
+        }
+        5 => {
+            sink.tag("str_units_129");
+            gen_units(rng, 129)
+        }
+        6 => {
+            sink.tag("str_units_255_257");
+            let n = 255 + rng.below(3) as usize;
+            gen_units(rng, n)
+        }
+        7 if big => {
+            sink.tag("str_units_32766_32767");
+            let n = 32766 + rng.below(2) as usize;
+            (0..n).map(|_| *rng.pick(&['a', 'b', 'q'])).collect()
+        }
+        _ => gen_short(rng),
+    }
+}
+
+/// CSV rendering of one text: some characters as \uXXXX or \u{X} escapes
+fn esc(rng: &mut Rng, s: &str, sink: &mut Sink) -> String {
+    if s.len() > 2000 || !rng.chance(1, 5) {
+        return s.to_string();
+    }
+    let mut out = String::new();
+    for c in s.chars() {
+        if rng.chance(1, 3) {
+            sink.tag("escape_used");
+            let v = c as u32;
+            if v <= 0xffff && rng.chance(1, 2) {
+                write!(out, "\\u{:04x}", v).unwrap();
+            } else if rng.chance(1, 2) {
+                write!(out, "\\u{{{:X}}}", v).unwrap();
+            } else {
+                write!(out, "\\u{{{:06x}}}", v).unwrap();
+            }
+        } else {
+            out.push(c);
+        }
+    }
+    out
+}
+fn csv_quote(s: &str) -> String {
+    if s.contains(',') || s.contains('"') || s.contains('\n') {
+        format!("\"{}\"", s.replace('"', "\"\""))
+    } else {
+        s.to_string()
+    }
+}
+
+pub fn std_pos() -> Pos {
+    ["名詞", "普通名詞", "一般", "*", "*", "*"].map(|s| s.to_string())
+}
+fn gen_pos_pool(rng: &mut Rng, sink: &mut Sink) -> Vec<Pos> {
+    let mut pool = vec![std_pos()];
+    let n = rng.below(4) as usize;
+    for _ in 0..n {
+        let mut p: Pos = ["動詞", "一般", "*", "*", "五段-カ行", "終止形-一般"].map(|s| s.to_string());
+        p[0] = gen_short(rng);
+        if rng.chance(1, 2) {
+            p[rng.below(6) as usize] = gen_short(rng);
+        }
+        if rng.chance(1, 12) {
+            sink.tag("pos_string_127_128");
+            let n = 127 + rng.below(2) as usize;
+            let k = rng.below(6) as usize;
+            p[k] = gen_units(rng, n);
+        }
+        if rng.chance(1, 10) {
+            p[rng.below(6) as usize] = String::new();
+        }
+        pool.push(p);
+    }
+    pool
+}
+
+fn render_ref(r: &Ref, pool: &[Pos], rng: &mut Rng, sink: &mut Sink) -> String {
+    match r {
+        Ref::Sys(n) => format!("{}", n),
+        Ref::User(n) => format!("U{}", n),
+        Ref::Inline { surface, pos, reading } => {
+            let p = &pool[*pos];
+            format!(
+                "{},{},{},{},{},{},{},{}",
+                esc(rng, surface, sink),
+                p[0],
+                p[1],
+                p[2],
+                p[3],
+                p[4],
+                p[5],
+                esc(rng, reading, sink)
+            )
+        }
+    }
+}
+fn render_list(rs: &[Ref], star: bool, pool: &[Pos], rng: &mut Rng, sink: &mut Sink) -> String {
+    if rs.is_empty() {
+        return if star { "*".into() } else { String::new() };
+    }
+    rs.iter().map(|r| render_ref(r, pool, rng, sink)).collect::<Vec<_>>().join("/")
+}
+pub fn render_csv(lex: &Lex, pool: &[Pos], rng: &mut Rng, sink: &mut Sink) -> String {
+    let mut out = String::new();
+    for r in &lex.rows {
+        let p = &pool[r.pos];
+        let mut cols: Vec<String> = vec![
+            esc(rng, &r.surface, sink),
+            r.left.to_string(),
+            r.right.to_string(),
+            r.cost.to_string(),
+            esc(rng, &r.headword, sink),
+        ];
+        for k in 0..6 {
+            cols.push(esc(rng, &p[k], sink));
+        }
+        cols.push(esc(rng, &r.reading, sink));
+        cols.push(esc(rng, &r.norm, sink));
+        cols.push(match &r.dic_form {
+            DicForm::None => "*".to_string(),
+            DicForm::Num(n) => n.to_string(),
+            DicForm::U(n) => format!("U{}", n),
+        });
+        cols.push(r.mode.to_string());
+        cols.push(render_list(&r.split_a, r.star_lists, pool, rng, sink));
+        cols.push(render_list(&r.split_b, r.star_lists, pool, rng, sink));
+        cols.push(render_list(&r.word_structure, r.star_lists, pool, rng, sink));
+        if let Some(sy) = &r.synonyms {
+            cols.push(if sy.is_empty() {
+                if r.star_lists { "*".into() } else { String::new() }
+            } else {
+                sy.iter().map(|x| x.to_string()).collect::<Vec<_>>().join("/")
+            });
+        }
+        out.push_str(&cols.iter().map(|c| csv_quote(c)).collect::<Vec<_>>().join(","));
+        out.push('\n');
+    }
+    out
+}
+pub fn render_matrix(m: &Matrix, rng: &mut Rng) -> String {
+    let mut s = String::new();
+    if rng.chance(1, 4) {
+        s.push_str("\n  \n");
+    }
+    writeln!(s, "{} {}", m.nl, m.nr).unwrap();
+    for (l, r, c) in &m.lines {
+        if rng.chance(1, 10) {
+            s.push('\n');
+        }
+        if rng.chance(1, 6) {
+            writeln!(s, "  {}\t{}   {}  ", l, r, c).unwrap();
+        } else {
+            writeln!(s, "{} {} {}", l, r, c).unwrap();
+        }
+    }
+    s
+}
+pub fn gen_matrix(rng: &mut Rng) -> Matrix {
+    let nl = 1 + rng.below(5) as u32;
+    let nr = if rng.chance(1, 2) { nl } else { 1 + rng.below(5) as u32 };
+    let mut lines = vec![];
+    let n = rng.below((nl * nr + 3) as u64) as usize;
+    for _ in 0..n {
+        let c = match rng.below(6) {
+            0 => i16::MAX,
+            1 => i16::MIN,
+            2 => -1,
+            _ => rng.range(-3000, 3000) as i16,
+        };
+        lines.push((rng.below(nl as u64) as u32, rng.below(nr as u64) as u32, c));
+    }
+    Matrix { nl, nr, lines }
+}
+
+fn gen_ids(rng: &mut Rng, n_sys: usize, n_user: usize, user: bool, sink: &mut Sink) -> Vec<Ref> {
+    let k = match rng.below(24) {
+        0 => {
+            sink.tag("array_127_items");
+            127
+        }
+        1..=3 => 2,
+        4..=7 => 1,
+        _ => 0,
+    };
+    (0..k)
+        .map(|_| {
+            if user && n_user > 0 && rng.chance(1, 2) {
+                Ref::User(rng.below(n_user as u64) as u32)
+            } else {
+                Ref::Sys(rng.below(n_sys.max(1) as u64) as u32)
+            }
+        })
+        .collect()
+}
+
+/// `sys`: the system lexicon a user lexicon is built against
+pub fn gen_lex(rng: &mut Rng, sink: &mut Sink, pool: &[Pos], sys: Option<&Lex>, ids_below: i16, big: bool, findings: bool) -> Lex {
+    let user = sys.is_some();
+    let n = 1 + rng.below(7) as usize;
+    let n_sys = sys.map(|s| s.rows.len()).unwrap_or(n);
+    let mut rows: Vec<Row> = vec![];
+    for i in 0..n {
+        let surface = if big && i == 0 {
+            sink.tag("str_units_32766_32767");
+            let n = 32766 + rng.below(2) as usize;
+            (0..n).map(|_| *rng.pick(&['a', 'b', 'q'])).collect()
+        } else if rng.chance(1, 14) {
+            sink.tag("surface_bytes_126_128");
+            let n = 126 + rng.below(3) as usize;
+            gen_bytes(rng, n)
+        } else {
+            gen_text(rng, sink, big && i == 0)
+        };
+        let headword = match rng.below(40) {
+            0 => String::new(),
+            1..=6 => gen_text(rng, sink, false),
+            _ => surface.clone(),
+        };
+        let form = |rng: &mut Rng, sink: &mut Sink| match rng.below(10) {
+            0 => {
+                sink.tag("form_empty");
+                String::new()
+            }
+            1..=4 => {
+                sink.tag("form_equal_headword");
+                headword.clone()
+            }
+            _ => gen_text(rng, sink, false),
+        };
+        let reading = form(rng, sink);
+        let norm = form(rng, sink);
+        let mode = *rng.pick(&["A", "A", "B", "C", "*", "a", "c", "BC"]);
+        let modeless = mode == "A" || mode == "a";
+        let mut split_a = if modeless { vec![] } else { gen_ids(rng, n_sys, n, user, sink) };
+        let mut split_b = if modeless { vec![] } else { gen_ids(rng, n_sys, n, user, sink) };
+        // inline references: aimed at an earlier own row or a system row whose surface equals its headword
+        if !modeless && rng.chance(1, 4) {
+            let mut cands: Vec<&Row> = rows.iter().filter(|r| r.surface == r.headword && !r.reading.is_empty() && r.surface.len() < 300 && r.reading.len() < 300).collect();
+            if let Some(s) = sys {
+                cands.extend(s.rows.iter().filter(|r| r.surface == r.headword && !r.reading.is_empty() && r.surface.len() < 300 && r.reading.len() < 300));
+            }
+            if !cands.is_empty() {
+                let t = *rng.pick(&cands);
+                let r = Ref::Inline { surface: t.surface.clone(), pos: t.pos, reading: t.reading.clone() };
+                sink.tag("inline_split_ref");
+                if rng.chance(1, 2) {
+                    if split_a.len() < 127 {
+                        split_a.push(r);
+                    }
+                } else if split_b.len() < 127 {
+                    split_b.insert(0, r);
+                }
+            }
+        }
+        let dic_form = if user {
+            if findings && rng.chance(1, 12) {
+                if rng.chance(1, 2) { DicForm::U(rng.below(n as u64) as u32) } else { DicForm::Num(rng.below(n.min(n_sys) as u64) as u32) }
+            } else {
+                DicForm::None
+            }
+        } else {
+            match rng.below(4) {
+                0 => DicForm::Num(rng.below(n as u64) as u32),
+                _ => DicForm::None,
+            }
+        };
+        let ids = ids_below.max(1);
+        rows.push(Row {
+            // at least one row must be indexed (an empty index makes the trie builder panic: C06's concern)
+            left: if i > 0 && rng.chance(1, 10) { -1 } else { rng.below(ids as u64) as i16 },
+            right: rng.below(ids as u64) as i16,
+            cost: match rng.below(8) {
+                0 => i16::MAX,
+                1 => i16::MIN + 1,
+                2 => -1,
+                _ => rng.range(-2000, 12000) as i16,
+            },
+            surface,
+            headword,
+            // the OOV plugin of the minimal configuration needs its POS in the system dictionary
+            pos: if i == 0 && !user { 0 } else { rng.below(pool.len() as u64) as usize },
+            reading,
+            norm,
+            dic_form,
+            mode,
+            split_a,
+            split_b,
+            word_structure: gen_ids(rng, n_sys, n, user, sink),
+            synonyms: match rng.below(5) {
+                0 => None,
+                1 => Some(vec![]),
+                2 => Some(vec![0, u32::MAX, rng.below(1 << 20) as u32]),
+                3 => Some((0..rng.below(4)).map(|_| rng.below(1000) as u32).collect()),
+                _ => Some(vec![rng.below(100) as u32]),
+            },
+            star_lists: rng.chance(1, 2),
+        });
+    }
+    Lex { rows, user }
+}
+
+// ---------------------------------------------------------------- the oracle: what the declared data mean
+#[derive(Clone, Debug)]
+pub struct Expected {
+    pub pos_ids: Vec<u16>,       // per row
+    pub new_pos: Vec<Pos>,       // rows of the POS table of this dictionary, in id order
+    pub splits_a: Vec<Vec<u32>>, // raw ids
+    pub splits_b: Vec<Vec<u32>>,
+    pub ws: Vec<Vec<u32>>,
+    pub dic_raw: Vec<u32>,
+}
+fn opt_reading<'a>(surface: &str, reading: &'a str) -> Option<&'a str> {
+    if surface == reading {
+        None
+    } else {
+        Some(reading)
+    }
+}
+/// POS ids in order of first use (inline split POS of columns 15 and 16 come before the row's own POS), after the
+/// preloaded system POS; references resolved own rows first, then system rows.
+pub fn expect(lex: &Lex, pool: &[Pos], sys: Option<(&Lex, &Expected)>) -> Option<Expected> {
+    let mut table: Vec<Pos> = sys.map(|(_, e)| e.new_pos.clone()).unwrap_or_default();
+    let start = table.len();
+    let mut pos_of = |p: &Pos, table: &mut Vec<Pos>| -> u16 {
+        if let Some(i) = table.iter().position(|q| q == p) {
+            i as u16
+        } else {
+            table.push(p.clone());
+            (table.len() - 1) as u16
+        }
+    };
+    let mut pos_ids = vec![];
+    let mut inline_pos: Vec<Vec<u16>> = vec![];
+    for r in &lex.rows {
+        let mut ip = vec![];
+        for x in r.split_a.iter().chain(r.split_b.iter()) {
+            if let Ref::Inline { pos, .. } = x {
+                ip.push(pos_of(&pool[*pos], &mut table));
+            }
+        }
+        inline_pos.push(ip);
+        pos_ids.push(pos_of(&pool[r.pos], &mut table));
+    }
+    let raw = |r: &Ref| match r {
+        Ref::Sys(n) => *n,
+        Ref::User(n) => (1u32 << 28) | *n,
+        _ => unreachable!(),
+    };
+    let own_dic: u32 = if lex.user { 1 } else { 0 };
+    let mut e = Expected { pos_ids: pos_ids.clone(), new_pos: table[start..].to_vec(), splits_a: vec![], splits_b: vec![], ws: vec![], dic_raw: vec![] };
+    if sys.is_none() {
+        e.new_pos = table.clone();
+    }
+    for (ri, r) in lex.rows.iter().enumerate() {
+        let mut k = 0usize;
+        let mut resolve = |x: &Ref, k: &mut usize| -> Option<u32> {
+            match x {
+                Ref::Inline { surface, reading, .. } => {
+                    let pid = inline_pos[ri][*k];
+                    *k += 1;
+                    let want = opt_reading(surface, reading);
+                    for (j, o) in lex.rows.iter().enumerate() {
+                        // RawDictResolver: index form, RawLexiconEntry::reading() (= the reading column)
+                        if &o.surface == surface && pos_ids[j] == pid && opt_reading(&o.surface, &o.reading) == want {
+                            return Some((own_dic << 28) | j as u32);
+                        }
+                    }
+                    if let Some((s, se)) = sys {
+                        for (j, o) in s.rows.iter().enumerate() {
+                            // BinDictResolver: WordInfo.surface (= headword), stored reading ("" when equal to the headword)
+                            let stored = if o.reading == o.headword { "" } else { o.reading.as_str() };
+                            let rd = if stored.is_empty() || o.headword == stored { None } else { Some(stored) };
+                            if &o.headword == surface && se.pos_ids[j] == pid && rd == want {
+                                return Some(j as u32);
+                            }
+                        }
+                    }
+                    None
+                }
+                x => Some(raw(x)),
+            }
+        };
+        let a: Option<Vec<u32>> = r.split_a.iter().map(|x| resolve(x, &mut k)).collect();
+        let b: Option<Vec<u32>> = r.split_b.iter().map(|x| resolve(x, &mut k)).collect();
+        e.splits_a.push(a?);
+        e.splits_b.push(b?);
+        e.ws.push(r.word_structure.iter().map(raw).collect());
+        e.dic_raw.push(match r.dic_form {
+            DicForm::None => u32::MAX,
+            DicForm::Num(n) => n,
+            DicForm::U(n) => (1 << 28) | n,
+        });
+    }
+    Some(e)
+}
+
+// ---------------------------------------------------------------- implementation side
+pub struct Sections<'a> {
+    pub header: &'a [u8],
+    pub pos: &'a [u8],
+    pub conn: &'a [u8],
+    pub words_offset: usize,
+    pub words: &'a [u8],
+}
+fn rd_u16(b: &[u8], o: usize) -> usize {
+    b[o] as usize | (b[o + 1] as usize) << 8
+}
+fn rd_u32(b: &[u8], o: usize) -> usize {
+    rd_u16(b, o) | rd_u16(b, o + 2) << 16
+}
+/// independent walk over the file layout (header, POS table, matrix, trie, word-id table, words section)
+pub fn sections(b: &[u8]) -> Option<Sections> {
+    if b.len() < 272 + 6 {
+        return None;
+    }
+    let mut o = 272;
+    let npos = rd_u16(b, o);
+    o += 2;
+    for _ in 0..npos * 6 {
+        let b0 = *b.get(o)? as usize;
+        let (len, w) = if b0 >= 128 { (((b0 & 0x7f) << 8) | *b.get(o + 1)? as usize, 2) } else { (b0, 1) };
+        o += w + 2 * len;
+    }
+    let pos_end = o;
+    let nl = rd_u16(b, o);
+    let nr = rd_u16(b, o + 2);
+    o += 4 + 2 * nl * nr;
+    let conn_end = o;
+    if b.len() < o + 4 {
+        return None;
+    }
+    o += 4 + 4 * rd_u32(b, o);
+    if b.len() < o + 4 {
+        return None;
+    }
+    o += 4 + rd_u32(b, o);
+    if b.len() < o + 4 {
+        return None;
+    }
+    Some(Sections { header: &b[..272], pos: &b[272..pos_end], conn: &b[pos_end..conn_end], words_offset: o, words: &b[o..] })
+}
+
+#[derive(Clone, Debug, PartialEq)]
+pub enum Readback {
+    Ok {
+        surface: String,
+        hwlen: usize,
+        pos: u16,
+        norm: String,
+        dfwi: i32,
+        dicform: String,
+        reading: String,
+        a: Vec<u32>,
+        b: Vec<u32>,
+        ws: Vec<u32>,
+        syn: Vec<u32>,
+        params: (i16, i16, i16),
+    },
+    Fail(String),
+}
+impl Readback {
+    pub fn coq(&self) -> String {
+        match self {
+            Readback::Fail(_) => "RBFail".into(),
+            Readback::Ok { surface, hwlen, pos, norm, dfwi, dicform, reading, a, b, ws, syn, params } => format!(
+                "(RB {} {} {} {} {} {} {} {} {} {} {} {} {} {})",
+                ctxt(surface),
+                cnu(*hwlen),
+                cn(*pos),
+                ctxt(norm),
+                cz(*dfwi as i64),
+                ctxt(dicform),
+                ctxt(reading),
+                cnlist(a),
+                cnlist(b),
+                cnlist(ws),
+                cnlist(syn),
+                cz(params.0 as i64),
+                cz(params.1 as i64),
+                cz(params.2 as i64)
+            ),
+        }
+    }
+}
+pub fn readback<D: DictionaryAccess>(d: &D, dic: u8, n: usize) -> Vec<Readback> {
+    (0..n)
+        .map(|i| {
+            let wid = WordId::new(dic, i as u32);
+            match catch(|| {
+                let wi = d.lexicon().get_word_info(wid).map_err(|e| format!("{:?}", e))?;
+                let p = d.lexicon().get_word_param(wid);
+                Ok::<Readback, String>(Readback::Ok {
+                    surface: wi.surface().to_string(),
+                    hwlen: wi.head_word_length(),
+                    pos: wi.pos_id(),
+                    norm: wi.normalized_form().to_string(),
+                    dfwi: wi.dictionary_form_word_id(),
+                    dicform: wi.dictionary_form().to_string(),
+                    reading: wi.reading_form().to_string(),
+                    a: wi.a_unit_split().iter().map(|w| w.as_raw()).collect(),
+                    b: wi.b_unit_split().iter().map(|w| w.as_raw()).collect(),
+                    ws: wi.word_structure().iter().map(|w| w.as_raw()).collect(),
+                    syn: wi.synonym_group_ids().to_vec(),
+                    params: p,
+                })
+            }) {
+                Ok(Ok(r)) => r,
+                Ok(Err(e)) => Readback::Fail(format!("Err {}", e)),
+                Err(p) => Readback::Fail(format!("panic {}", p)),
+            }
+        })
+        .collect()
+}
+
+pub fn compile_system(csv: &str, matrix: &str, time: u64, descr: &str) -> Result<Vec<u8>, String> {
+    match catch(|| {
+        let mut b = DictBuilder::new_system();
+        b.set_compile_time(std::time::UNIX_EPOCH + std::time::Duration::from_secs(time));
+        b.set_description(descr);
+        b.read_conn(matrix.as_bytes()).map_err(|e| format!("{:?}", e))?;
+        b.read_lexicon(csv.as_bytes()).map_err(|e| format!("{:?}", e))?;
+        b.resolve().map_err(|e| format!("{:?}", e))?;
+        let mut out = vec![];
+        b.compile(&mut out).map_err(|e| format!("{:?}", e))?;
+        Ok::<Vec<u8>, String>(out)
+    }) {
+        Ok(r) => r,
+        Err(p) => Err(format!("PANIC {}", p)),
+    }
+}
+pub fn compile_user(sys: &LoadedDictionary, csv: &str, time: u64, descr: &str) -> Result<Vec<u8>, String> {
+    match catch(|| {
+        let mut b = DictBuilder::new_user(sys);
+        b.set_compile_time(std::time::UNIX_EPOCH + std::time::Duration::from_secs(time));
+        b.set_description(descr);
+        b.read_lexicon(csv.as_bytes()).map_err(|e| format!("{:?}", e))?;
+        b.resolve().map_err(|e| format!("{:?}", e))?;
+        let mut out = vec![];
+        b.compile(&mut out).map_err(|e| format!("{:?}", e))?;
+        Ok::<Vec<u8>, String>(out)
+    }) {
+        Ok(r) => r,
+        Err(p) => Err(format!("PANIC {}", p)),
+    }
+}
+pub fn resources() -> String {
+    format!("{}/sudachi/tests/resources", repo())
+}
+pub fn load_with_user(sys: Vec<u8>, user: Vec<Vec<u8>>) -> Result<JapaneseDictionary, String> {
+    match catch(|| {
+        let cfg = Config::minimal_at(resources());
+        let mut st = SudachiDicData::new(Storage::Owned(sys));
+        for u in user {
+            st.add_user(Storage::Owned(u));
+        }
+        JapaneseDictionary::from_cfg_storage(&cfg, st).map_err(|e| format!("{:?}", e))
+    }) {
+        Ok(r) => r,
+        Err(p) => Err(format!("PANIC {}", p)),
+    }
+}
+
+// ---------------------------------------------------------------- Coq side of one dictionary
+fn entries_coq(lex: &Lex, e: &Expected) -> String {
+    clist(lex.rows.iter().enumerate().map(|(i, r)| {
+        format!(
+            "mkEntry {} {} {} {} {} {} {} {} {} {} {} {} {}",
+            ctxt(&r.headword),
+            cnu(r.surface.len()),
+            cn(e.pos_ids[i]),
+            ctxt(&r.norm),
+            cn(e.dic_raw[i]),
+            ctxt(&r.reading),
+            cnlist(&e.splits_a[i]),
+            cnlist(&e.splits_b[i]),
+            cnlist(&e.ws[i]),
+            cnlist(r.synonyms.as_deref().unwrap_or(&[])),
+            cz(r.left as i64),
+            cz(r.right as i64),
+            cz(r.cost as i64)
+        )
+    }))
+}
+fn or_headword<'a>(r: &'a Row, t: &'a str) -> &'a str {
+    if t.is_empty() {
+        &r.headword
+    } else {
+        t
+    }
+}
+fn restamp(dic: u8, ids: &[u32]) -> Vec<u32> {
+    ids.iter().map(|x| if x >> 28 > 0 { ((dic as u32) << 28) | (x & 0x0fff_ffff) } else { *x }).collect()
+}
+/// the dictionary form the declared row asks for (None: the reference cannot be honoured by construction)
+fn expected_dicform(lex: &Lex, i: usize) -> String {
+    let r = &lex.rows[i];
+    match r.dic_form {
+        DicForm::Num(n) if n as usize != i && !lex.user => or_headword(r, &lex.rows[n as usize].headword).to_string(),
+        _ => r.headword.clone(),
+    }
+}
+
+pub struct Case {
+    pub pool: Vec<Pos>,
+    pub sys: Lex,
+    pub matrix: Matrix,
+    pub user: Option<Lex>,
+    pub sys_csv: String,
+    pub matrix_text: String,
+    pub user_csv: String,
+    pub time: u64,
+    pub descr: String,
+}
+pub fn gen_case(rng: &mut Rng, sink: &mut Sink, want_user: bool, big: bool, findings: bool) -> Case {
+    let pool = gen_pos_pool(rng, sink);
+    let matrix = gen_matrix(rng);
+    let ids = matrix.nl.min(matrix.nr) as i16;
+    let sys = gen_lex(rng, sink, &pool, None, ids, big && !want_user, false);
+    let user = if want_user { Some(gen_lex(rng, sink, &pool, Some(&sys), ids, big, findings)) } else { None };
+    let sys_csv = render_csv(&sys, &pool, rng, sink);
+    let user_csv = user.as_ref().map(|u| render_csv(u, &pool, rng, sink)).unwrap_or_default();
+    let matrix_text = render_matrix(&matrix, rng);
+    let descr = match rng.below(4) {
+        0 => String::new(),
+        1 => "x".repeat(256),
+        2 => "説明 💞 description".to_string(),
+        _ => gen_short(rng),
+    };
+    Case { pool, sys, matrix, user, sys_csv, matrix_text, user_csv, time: rng.below(1 << 40), descr }
+}
+
+fn version_of(user: bool) -> u64 {
+    if user {
+        0xca9811756ff64fb0
+    } else {
+        0xce9f011a92394434
+    }
+}
+
+/// runs one case; returns false when the implementation rejected the (valid) input
+pub fn run_case(sink: &mut Sink, c: &Case, desc: Value, verbose: bool) {
+    let nontrivial_base = c.sys.rows.len() >= 2;
+    if verbose {
+        println!("system csv:\n{}matrix:\n{}user csv:\n{}", c.sys_csv, c.matrix_text, c.user_csv);
+    }
+    let sys_bytes = match compile_system(&c.sys_csv, &c.matrix_text, c.time, &c.descr) {
+        Ok(b) => b,
+        Err(e) => {
+            let id = sink.case_rust_only(desc, false);
+            sink.fail(id, &format!("valid system lexicon rejected by the compiler: {}", e), "");
+            return;
+        }
+    };
+    // determinism, in process
+    match compile_system(&c.sys_csv, &c.matrix_text, c.time, &c.descr) {
+        Ok(b2) if b2 == sys_bytes => sink.tag("compiled_twice_identical"),
+        _ => {
+            let id = sink.case_rust_only(desc, false);
+            sink.fail(id, "compiling the same system lexicon twice with the same timestamp gave different bytes", "");
+            return;
+        }
+    }
+    let sys_exp = match expect(&c.sys, &c.pool, None) {
+        Some(e) => e,
+        None => return,
+    };
+    let loaded = match catch(|| DictionaryLoader::read_system_dictionary(&sys_bytes).map(|d| d.to_loaded())) {
+        Ok(Ok(Some(l))) => l,
+        other => {
+            let id = sink.case_rust_only(desc, false);
+            sink.fail(id, &format!("compiled system dictionary does not load: {:?}", other.map(|r| r.map(|_| ()).map_err(|e| format!("{:?}", e)))), "");
+            return;
+        }
+    };
+    match &c.user {
+        None => {
+            let rbs = readback(&loaded, 0, c.sys.rows.len());
+            // POS strings and connection costs through the public accessors
+            let mut bad: Option<String> = None;
+            for (i, r) in c.sys.rows.iter().enumerate() {
+                if let Readback::Ok { pos, .. } = &rbs[i] {
+                    let got = loaded.grammar.pos_list.get(*pos as usize);
+                    if got.map(|g| g.as_slice()) != Some(&c.pool[r.pos][..]) {
+                        bad = Some(format!("word {}: part of speech {:?}, declared {:?}", i, got, c.pool[r.pos]));
+                    }
+                }
+            }
+            let mut conn_reads = vec![];
+            for l in 0..c.matrix.nl {
+                for r in 0..c.matrix.nr {
+                    match catch(|| loaded.grammar.connect_cost(l as i16, r as i16)) {
+                        Ok(v) => conn_reads.push((l, r, v)),
+                        Err(p) => bad = Some(format!("connect_cost({}, {}) panicked: {}", l, r, p)),
+                    }
+                }
+            }
+            // alignment independence: same bytes at an odd and an even address
+            let mut shifted = vec![0u8; sys_bytes.len() + 2];
+            let off = if (shifted.as_ptr() as usize) % 2 == 0 { 1 } else { 0 };
+            for o in [off, off + 1] {
+                shifted[o..o + sys_bytes.len()].copy_from_slice(&sys_bytes);
+                let view = &shifted[o..o + sys_bytes.len()];
+                let same = catch(|| {
+                    let l2 = DictionaryLoader::read_system_dictionary(view).ok().and_then(|d| d.to_loaded())?;
+                    let r2 = readback(&l2, 0, c.sys.rows.len());
+                    let mut costs = vec![];
+                    for l in 0..c.matrix.nl {
+                        for r in 0..c.matrix.nr {
+                            costs.push((l, r, l2.grammar.connect_cost(l as i16, r as i16)));
+                        }
+                    }
+                    Some(r2 == rbs && costs == conn_reads && l2.grammar.pos_list == loaded.grammar.pos_list)
+                });
+                if same != Ok(Some(true)) {
+                    bad = Some(format!("loading the same bytes at address parity {} gives different reads", (view.as_ptr() as usize) % 2));
+                }
+                sink.tag(if (view.as_ptr() as usize) % 2 == 1 { "loaded_unaligned" } else { "loaded_aligned" });
+            }
+            let term = full_term(&c.sys, &sys_exp, &c.matrix, &sys_bytes, c.time, &c.descr, 0, 0, 0, &rbs, &conn_reads);
+            let expd = expected_rb(&c.sys, &sys_exp, 0);
+            for (i, (x, y)) in expd.iter().zip(rbs.iter()).enumerate() {
+                if x != y && bad.is_none() {
+                    bad = Some(format!("word {} read back as {:?}, declared {:?}", i, y, x));
+                }
+            }
+            if verbose {
+                println!("system csv:\n{}matrix:\n{}", c.sys_csv, c.matrix_text);
+                println!("implementation read-back: {:#?}", rbs);
+                println!("declared: {:#?}", expd);
+            }
+            sink.tag("system_dictionary");
+            sink.tag(&format!("matrix_{}", if c.matrix.nl == c.matrix.nr { "square" } else { "non_square" }));
+            let id = match term {
+                Some(t) => sink.case(t, desc, nontrivial_base),
+                None => sink.case_rust_only(desc, false),
+            };
+            if let Some(b) = bad {
+                sink.fail(id, &b, "");
+            }
+        }
+        Some(user) => {
+            let uexp = match expect(user, &c.pool, Some((&c.sys, &sys_exp))) {
+                Some(e) => e,
+                None => return,
+            };
+            let ub = match compile_user(&loaded, &c.user_csv, c.time, &c.descr) {
+                Ok(b) => b,
+                Err(e) => {
+                    let id = sink.case_rust_only(desc, false);
+                    sink.fail(id, &format!("valid user lexicon rejected by the compiler: {}", e), "");
+                    return;
+                }
+            };
+            match compile_user(&loaded, &c.user_csv, c.time, &c.descr) {
+                Ok(b2) if b2 == ub => sink.tag("compiled_twice_identical"),
+                _ => {
+                    let id = sink.case_rust_only(desc, false);
+                    sink.fail(id, "compiling the same user lexicon twice with the same timestamp gave different bytes", "");
+                    return;
+                }
+            }
+            let nsys = loaded.grammar.pos_list.len();
+            let jd = match load_with_user(sys_bytes.clone(), vec![ub.clone()]) {
+                Ok(d) => d,
+                Err(e) => {
+                    let id = sink.case_rust_only(desc, false);
+                    sink.fail(id, &format!("compiled user dictionary does not load: {}", e), "");
+                    return;
+                }
+            };
+            let rbs = readback(&jd, 1, user.rows.len());
+            let mut bad: Option<String> = None;
+            let mut known = false;
+            for (i, r) in user.rows.iter().enumerate() {
+                if let Readback::Ok { pos, .. } = &rbs[i] {
+                    let got = jd.grammar().pos_list.get(*pos as usize);
+                    if got.map(|g| g.as_slice()) != Some(&c.pool[r.pos][..]) {
+                        bad = Some(format!("user word {}: part of speech {:?}, declared {:?}", i, got, c.pool[r.pos]));
+                    }
+                }
+            }
+            let expd = expected_rb(user, &uexp, 1);
+            let has_finding_row = user.rows.iter().any(|r| r.dic_form != DicForm::None);
+            for (i, (x, y)) in expd.iter().zip(rbs.iter()).enumerate() {
+                if x == y {
+                    continue;
+                }
+                // known finding: only the dictionary form of a user-dictionary row with a dictionary-form reference
+                let is_known = user.rows[i].dic_form != DicForm::None
+                    && match (x, y) {
+                        (_, Readback::Fail(_)) => true,
+                        (Readback::Ok { dicform: _, .. }, Readback::Ok { .. }) => {
+                            let mut y2 = y.clone();
+                            if let (Readback::Ok { dicform: d2, .. }, Readback::Ok { dicform: d1, .. }) = (&mut y2, x) {
+                                *d2 = d1.clone();
+                            }
+                            &y2 == x
+                        }
+                        _ => false,
+                    };
+                if is_known {
+                    known = true;
+                } else if bad.is_none() {
+                    bad = Some(format!("user word {} read back as {:?}, declared {:?}", i, y, x));
+                }
+            }
+            if verbose {
+                println!("system csv:\n{}matrix:\n{}user csv:\n{}", c.sys_csv, c.matrix_text, c.user_csv);
+                println!("implementation read-back: {:#?}", rbs);
+                println!("declared: {:#?}", expd);
+            }
+            sink.tag("user_dictionary");
+            let um = Matrix { nl: 0, nr: 0, lines: vec![] };
+            let term = if has_finding_row {
+                sections(&ub).map(|s| {
+                    format!(
+                        "check_c05_model_only {} {} {} 1%N {} {} {}",
+                        cnu(s.words_offset),
+                        entries_coq(user, &uexp),
+                        cblob(s.words),
+                        cnu(nsys),
+                        cnu(nsys),
+                        clist(rbs.iter().map(|r| r.coq()))
+                    )
+                })
+            } else {
+                full_term(user, &uexp, &um, &ub, c.time, &c.descr, 1, nsys, nsys, &rbs, &[])
+            };
+            let id = match term {
+                Some(t) => sink.case(t, desc, true),
+                None => sink.case_rust_only(desc, false),
+            };
+            if let Some(b) = bad {
+                sink.fail(id, &b, "");
+            } else if known {
+                sink.tag("known_user_dicform_ref");
+                sink.fail(
+                    id,
+                    "user-dictionary row with a dictionary-form reference (U<n> or <n>): compiles, but reading the word panics or reports another entry's form",
+                    KNOWN_USER_DICFORM,
+                );
+            }
+        }
+    }
+}
+
+fn expected_rb(lex: &Lex, e: &Expected, dic: u8) -> Vec<Readback> {
+    lex.rows
+        .iter()
+        .enumerate()
+        .map(|(i, r)| Readback::Ok {
+            surface: r.headword.clone(),
+            hwlen: r.surface.len(),
+            pos: e.pos_ids[i],
+            norm: or_headword(r, &r.norm).to_string(),
+            dfwi: e.dic_raw[i] as i32,
+            dicform: expected_dicform(lex, i),
+            reading: or_headword(r, &r.reading).to_string(),
+            a: restamp(dic, &e.splits_a[i]),
+            b: restamp(dic, &e.splits_b[i]),
+            ws: restamp(dic, &e.ws[i]),
+            syn: r.synonyms.clone().unwrap_or_default(),
+            params: (r.left, r.right, r.cost),
+        })
+        .collect()
+}
+
+#[allow(clippy::too_many_arguments)]
+fn full_term(
+    lex: &Lex,
+    e: &Expected,
+    m: &Matrix,
+    bytes: &[u8],
+    time: u64,
+    descr: &str,
+    dic: u8,
+    nsys: usize,
+    pos_offset: usize,
+    rbs: &[Readback],
+    conn_reads: &[(u32, u32, i16)],
+) -> Option<String> {
+    let s = sections(bytes)?;
+    Some(format!(
+        "check_c05 {} {} {} {} {} {} {} {} {} {} {} {} {} {} {} {} {} {} {}",
+        cn(version_of(lex.user)),
+        cn(time),
+        cblob(descr.as_bytes()),
+        cblob(s.header),
+        clist(e.new_pos.iter().map(|p| clist(p.iter().map(|x| ctxt(x))))),
+        cblob(s.pos),
+        cn(m.nl),
+        cn(m.nr),
+        clist(m.lines.iter().map(|(l, r, c)| format!("({}, {}, {})", cn(*l), cn(*r), cz(*c as i64)))),
+        cblob(s.conn),
+        clist(conn_reads.iter().map(|(l, r, c)| format!("({}, {}, {})", cn(*l), cn(*r), cz(*c as i64)))),
+        cnu(s.words_offset),
+        entries_coq(lex, e),
+        cblob(s.words),
+        cn(dic),
+        cnu(nsys),
+        cnu(pos_offset),
+        clist((0..lex.rows.len()).map(|i| ctxt(&expected_dicform(lex, i)))),
+        clist(rbs.iter().map(|r| r.coq()))
+    ))
+}
+
+/// inputs the compiler must reject (never a silently different dictionary)
+fn malformed(sink: &mut Sink, rng: &mut Rng, n: usize) {
+    let base = "京都,0,0,5293,京都,名詞,固有名詞,地名,一般,*,*,キョウト,京都,*,A,*,*,*,*\n";
+    let mut rejected = 0u64;
+    for k in 0..n {
+        let (csv, what): (String, &str) = match k % 6 {
+            0 => (format!("{},0,0,1,x,名詞,普通名詞,一般,*,*,*,x,x,*,A,*,*,*,*\n", "a".repeat(32768)), "string of 32768 bytes"),
+            1 => (format!("{}東,0,0,1,東,名詞,普通名詞,一般,*,*,*,x,x,*,C,{},*,*,*\n", base, vec!["0"; 128].join("/")), "128 split items"),
+            2 => (format!("{}東,0,0,1,東,名詞,普通名詞,一般,*,*,*,x,x,*,C,*,*,{},*\n", base, 1 + rng.below(100)), "word structure id out of range"),
+            3 => (format!("{}東,0,0,1,\\u{{110000}},名詞,普通名詞,一般,*,*,*,x,x,*,A,*,*,*,*\n", base), "escape above U+10FFFF"),
+            4 => (format!("{}東,0,0,1,東,名詞,普通名詞,一般,*,*,*,x,x,*,C,\"無,名詞,普通名詞,一般,*,*,*,ム\",*,*,*\n", base), "unresolvable inline reference"),
+            _ => (format!("{}東,{},0,1,東,名詞,普通名詞,一般,*,*,*,x,x,*,A,*,*,*,*\n", base, 1 + rng.below(3)), "left id outside the matrix"),
+        };
+        match compile_system(&csv, "1 1\n0 0 0\n", 0, "") {
+            Err(e) if !e.starts_with("PANIC") => rejected += 1,
+            Err(e) => {
+                sink.tag("malformed_compiler_panic");
+                let _ = e; // a compiler panic on malformed input belongs to C06
+            }
+            Ok(_) => {
+                let id = sink.case_rust_only(json!({"kind": "c05-malformed", "what": what, "csv": if csv.len() < 400 { csv.clone() } else { format!("{}…", &csv[..100]) }}), false);
+                sink.fail(id, &format!("malformed lexicon accepted: {}", what), "");
+            }
+        }
+    }
+    sink.tag_n("malformed_rejected", rejected);
+}
+
+/// determinism across processes: this binary is run again in replay mode and only compiles
+fn second_process(args: &Args, sink: &mut Sink, c: &Case, bytes: &[u8], k: usize) {
+    let dir = args.work.join("c05_proc");
+    let _ = std::fs::create_dir_all(&dir);
+    let f = dir.join(format!("compile_{}.json", k));
+    let out = dir.join(format!("compile_{}.bin", k));
+    let _ = std::fs::remove_file(&out);
+    let v = json!({"case": {"kind": "c05-compile-only", "csv": c.sys_csv, "matrix": c.matrix_text, "time": c.time, "descr": c.descr, "out": out.to_string_lossy()}});
+    std::fs::write(&f, v.to_string()).unwrap();
+    let st = std::process::Command::new(std::env::current_exe().unwrap())
+        .args(["C05", "--seed", "0", "--tier", "quick", "--out"])
+        .arg(dir.join("out"))
+        .arg("--replay")
+        .arg(&f)
+        .output();
+    let same = st.is_ok() && std::fs::read(&out).map(|b| b == bytes).unwrap_or(false);
+    let id = sink.case_rust_only(json!({"kind": "c05-second-process", "csv": c.sys_csv, "matrix": c.matrix_text, "time": c.time}), true);
+    sink.tag("compiled_in_second_process");
+    if !same {
+        sink.fail(id, "a second process compiling the same inputs with the same timestamp produced different bytes", "");
+    }
+}
+
+fn case_from_state(state: u64, user: bool, big: bool, findings: bool, sink: &mut Sink) -> Case {
+    let mut r = Rng(state);
+    gen_case(&mut r, sink, user, big, findings)
+}
+
+pub fn run(args: &Args) {
+    let mut sink = Sink::new("C05", &args.out, &["Model.Codec", "Model.CodecIO", "Model.CodecCheck"], args.seed, &args.tier);
+    sink.shard_size = 40;
+    sink.rule("random lexicons of 1..7 rows (strings of 1..3 chars or 126/127/128/129/255..257/32766/32767 UTF-16 units mixing kana, kanji, ASCII, U+7F/80/7FF/800/D7FF/E000/FFFF and astral characters, \\uXXXX and \\u{X} escapes, forms empty / equal to the headword / different, index form of 126..128 bytes, arrays of 0/1/2/127 ids, numeric, U-prefixed and inline references, dictionary-form references, synonym column present/absent/empty) x matrices 1..5 x 1..5 (non-square, duplicated and missing cells, extreme costs) x system / user dictionary; non-trivial = at least two rows (system) or a user dictionary; distinct by generated Coq term");
+    if let Some(p) = &args.replay {
+        let v: Value = serde_json::from_str(&std::fs::read_to_string(p).unwrap()).unwrap();
+        let case = &v["case"];
+        if case["kind"] == "c05-compile-only" {
+            let b = compile_system(case["csv"].as_str().unwrap(), case["matrix"].as_str().unwrap(), case["time"].as_u64().unwrap(), case["descr"].as_str().unwrap());
+            if let Ok(b) = b {
+                std::fs::write(case["out"].as_str().unwrap(), b).unwrap();
+            }
+            sink.finish();
+            return;
+        }
+        if let Some(st) = case["rng"].as_u64() {
+            let c = case_from_state(st, case["user"].as_bool().unwrap_or(false), case["big"].as_bool().unwrap_or(false), case["findings"].as_bool().unwrap_or(false), &mut sink);
+            run_case(&mut sink, &c, case.clone(), true);
+        } else {
+            println!("this case kind has no replay: {}", case);
+        }
+        sink.finish();
+        return;
+    }
+    let mut rng = Rng::new(args.seed);
+    // corpus: the shipped test lexicon, compiled and read back by the implementation-side oracle only
+    // (its rows are not in model vocabulary); then the generated streams
+    let n = args.n(700, 9000);
+    let mut procs = 0usize;
+    for k in 0..n {
+        let user = k % 3 == 2;
+        let big = k % 97 == 6;
+        let findings = user && k % 2 == 0;
+        let st = rng.next();
+        let c = case_from_state(st, user, big, findings, &mut sink);
+        let desc = json!({"kind": "c05", "rng": st, "user": user, "big": big, "findings": findings,
+                          "csv": if c.sys_csv.len() < 1500 { c.sys_csv.clone() } else { format!("{} bytes", c.sys_csv.len()) },
+                          "matrix": c.matrix_text, "user_csv": if c.user_csv.len() < 1500 { c.user_csv.clone() } else { format!("{} bytes", c.user_csv.len()) }});
+        run_case(&mut sink, &c, desc, false);
+        if !user && k % 40 == 1 && procs < args.n(8, 40) {
+            if let Ok(b) = compile_system(&c.sys_csv, &c.matrix_text, c.time, &c.descr) {
+                second_process(args, &mut sink, &c, &b, procs);
+                procs += 1;
+            }
+        }
+    }
+    malformed(&mut sink, &mut rng, args.n(12, 60));
+    sink.finish();
 }
